@@ -406,7 +406,32 @@ RULES["R07.3"] += " | Softmax::backward: every result is Tensor::single(v).resha
 RULES["R07.1"] += " | entries-stay-in-place (who-may-permute): over every function of the property's modules, no Vec/slice operation that moves entries to other positions (reverse, swap, rotate, sort .., mem::swap of two entries) outside the table of sites confirmed on the pinned tree (common.PERMUTING_SITES)"
 
 
+def as_computed(ctx):
+    """every forward / backward of activation.rs returns the lists its element-wise pipeline produced: on the E6 value of each non-panicking path
+    the only in-place change of a list is appending entries (push / extend); no entry is assigned, dropped or moved in straight-line code after
+    the pipeline (changes made inside the loops are part of the loop's value and are judged by the function rules)"""
+    from .. import e6
+    c = ctx.crate
+    n = 0
+    for path, fn in sorted(c.fns.items()):
+        leaf = path.rsplit("::", 1)[-1]
+        if fn.get("file") != "src/activation.rs" or leaf not in ("forward", "backward"):
+            continue
+        live = [p for p in e6.Exec(c, fn).run_fn() if p.exit is None or p.exit[0] == "return"]
+        tam = sorted({nm for p in live for nm in e6.inplace_changes(p.val if p.exit is None else p.exit[1])})
+        n += 1
+        ctx.check("R07.1", path.split("::")[-2] + "::" + leaf + ":returned-as-computed", bool(live) and not tam, "result-changed-in-place-by:" + ",".join(tam), c.loc(fn),
+                  "%d paths: output entry i is f(input entry i), returned as produced" % len(live),
+                  "%s changes its result in place (%s) after the element-wise pipeline produced it" % (path, tam))
+    if n < 10:
+        ctx.bad("R07.1", "returned-as-computed:count", "activation-functions-found:%d" % n, "src/activation.rs", "expected the forward/backward of at least five activation kinds")
+
+
+RULES["R07.1"] += " | returned-as-computed: on the E6 value of every non-panicking path of each activation forward/backward, the only in-place change of a list is appending entries; nothing assigns, drops or moves an entry after the element-wise pipeline"
+
+
 def run(ctx):
+    ctx.guard("R07.1", "returned-as-computed", as_computed, ctx)
     from .common import no_permuting_ops
     ctx.guard("R07.1", "entries-stay-in-place", no_permuting_ops, ctx, "R07.1", "activation", {"src/activation.rs"}, 20)
     for kind in ("ReLU", "LeakyReLU", "Sigmoid", "Tanh"):
